@@ -402,6 +402,70 @@ def run(ctx):
         ctx.broken.append('correspondence:MapToMolecule vs model/Blocks.v')
     mod_cases(ctx)
     multi_residue_cases(ctx)
+    removal_cases(ctx)
+
+
+def removal_cases(ctx):
+    """links that remove an atom (replace atomname null): every atom that no applicable link targets keeps its name, type,
+    residue id, residue name and charge; every block interaction that does not involve a removed atom reappears once per
+    instance; the chain link is applied between all neighbours (F31, F32)"""
+    rng = ctx.rng
+    for k in range(ctx.n(12, 120)):
+        natoms = rng.randint(2, 4)
+        names = ['EO', 'EP', 'EQ', 'ER'][:natoms]
+        victim = rng.choice(names[1:])
+        everywhere = rng.random() < 0.5
+        r0 = rng.choice([1, 1, 4])
+        nres = rng.randint(2, 5)
+        bonds = [(0, j) for j in range(1, natoms)]
+        lines = ['[ moleculetype ]', 'PEO 1', '[ atoms ]']
+        lines += [f'{i + 1} P{i + 1} 1 PEO {n} {i + 1} {0.5 * i} {45 + i}' for i, n in enumerate(names)]
+        lines += ['[ bonds ]'] + [f'{names[a]} {names[b]} 1 0.{40 + b} 7000' for a, b in bonds]
+        lines += ['[ link ]', 'resname "PEO"', '[ bonds ]', 'EO +EO 1 0.37 7000']
+        # the victim is removed wherever the one-residue link applies: in every residue (it is never bonded to the EO of
+        # the next residue), or -- vetoed by a non-edge to the EO of its own residue, to which it is bonded -- nowhere
+        lines += ['[ link ]', 'resname "PEO"', '[ atoms ]', victim + ' {"replace": {"atomname": null}}', '[ non-edges ]',
+                  f'{victim} +EO' if everywhere else f'{victim} EO']
+        text = '\n'.join(lines) + '\n'
+        g = {'nres': nres, 'shape': 'path', 'resnames': ['PEO'] * nres, 'edges': [(i, i + 1) for i in range(nres - 1)], 'r0': r0,
+             'keys': list(range(nres)), 'order': list(range(nres)), 'edge_order': list(range(nres - 1)), 'flip': [False] * (nres - 1)}
+        if rng.random() < 0.5:
+            g = ffgen.permute_graph(rng, g)
+        out = ffgen.run_pipeline(text, g)
+        ctx.case(('removal', text, json.dumps(g, sort_keys=True)), nontrivial=everywhere)
+        ctx.feature('atom_removal_link')
+        rep = {'removal_ff': text, 'graph': g}
+        if 'error' in out:
+            ctx.violation('spec', f"the pipeline failed on an input with an atom-removing link: {out['error']}", rep)
+            continue
+        before, after = out['map'], out['links']
+        gone = {a['key'] for a in before['atoms']} - {a['key'] for a in after['atoms']}
+        bad = []
+        if any(a['name'] != victim for a in before['atoms'] if a['key'] in gone):
+            bad.append(f"atoms other than {victim} were removed: {sorted(gone)}")
+        if not everywhere and gone:
+            bad.append(f"atoms {sorted(gone)} were removed although the removing link matches nowhere")
+        if everywhere and not gone:
+            bad.append(f"no atom was removed although the removing link matches")
+        bykey = {a['key']: a for a in after['atoms']}
+        for a in before['atoms']:
+            if a['key'] in gone:
+                continue
+            b = bykey.get(a['key'])
+            if b is None or any(a[f] != b[f] for f in ('name', 'atype', 'resid', 'resname', 'charge', 'mass', 'cg')):
+                bad.append(f"atom {a['key']} ({a['name']} of residue {a['resid']}), which no link targets, changed from {a} to {b}")
+                break
+        want = sorted((tuple(r['atoms']), tuple(r['params'])) for r in before['inters'].get('bonds', []) if not set(r['atoms']) & gone)
+        first = {}
+        for a in after['atoms']:
+            if a['name'] == 'EO':
+                first[a['resid']] = a['key']
+        want += [((first[r0 + i], first[r0 + i + 1]), ('1', '0.37', '7000')) for i in range(nres - 1) if r0 + i in first and r0 + i + 1 in first]
+        got = sorted((tuple(r['atoms']), tuple(r['params'])) for r in after['inters'].get('bonds', []))
+        if sorted(want) != got and not bad:
+            bad.append(f"bonds after link application {got}; the blocks and the chain link define {sorted(want)} on the atoms that are left")
+        for b in bad[:1]:
+            ctx.violation('spec', f"C01 fails on the implementation (atom-removing link): {b}", dict(rep, failure=b))
 
 
 MULTI_FF = """[ moleculetype ]
@@ -521,7 +585,16 @@ def search(ctx):
     return
 
 
+def replay_removal(ctx, data):
+    out = ffgen.run_pipeline(data['removal_ff'], data['graph'])
+    print('replay: atoms after links', [(a['key'], a['name'], a['resid']) for a in out.get('links', {}).get('atoms', [])])
+    print('replay: bonds after links', out.get('links', {}).get('inters', {}).get('bonds'))
+    return 0
+
+
 def replay(ctx, data):
+    if 'removal_ff' in data:
+        return replay_removal(ctx, data)
     print(json.dumps(data, indent=1, default=str)[:3000])
     if data.get('mod_case'):
         g = data['graph']
